@@ -498,13 +498,21 @@ double cmb_random_triangular(const double min,
     cmb_assert_release(mode <= max);
 
     const double u = cmb_random();
+    if (!(max > min)) {
+        /* All three the same, nothing to choose from (and 0/0 below) */
+        return min;
+    }
 
     double x;
     if ((u < (mode - min) / (max - min))) {
-        x = (min + sqrt(u * (max - min) * (mode - min)));
+        const double q = u * (max - min) * (mode - min);
+        x = (isfinite(q)) ? min + sqrt(q)
+                          : min + sqrt(u * (max - min)) * sqrt(mode - min);
     }
     else {
-        x = (max - sqrt((1.0 - u) * (max- min) * (max - mode)));
+        const double q = (1.0 - u) * (max - min) * (max - mode);
+        x = (isfinite(q)) ? max - sqrt(q)
+                          : max - sqrt((1.0 - u) * (max - min)) * sqrt(max - mode);
     }
 
     cmb_assert_debug((x >= min) && (x <= max));
